@@ -1,9 +1,11 @@
 #!/bin/bash
 # Build the harness offline from files on disk only.
 set -e
-cd "$(dirname "$0")/harness"
+ROOT="$(cd "$(dirname "$0")" && pwd)"
+export VERIF_ROOT="$ROOT"
+cd "$ROOT/harness"
 export CARGO_NET_OFFLINE=true
-mkdir -p /verif/replays /verif/evidence
+mkdir -p "$ROOT/replays" "$ROOT/evidence"
 cargo build --release --offline 2>&1 | tail -3
 ./target/release/verif selftest
 # the libFuzzer targets (thorough tier) are built on demand by fuzz/run_fuzz.sh (about 4 min cold)
